@@ -398,10 +398,11 @@ type cmpOpts struct {
 	dropImports      bool // expected = original without import files
 	ignoreImportFlag bool
 	descriptorsOnly  bool // FileDescriptorSet: only descriptors + order
-	// markersOfTargetsOnly: compare the syntax-unspecified / unused-dependency markers of non-import
-	// files only. The compiler reports those warnings for the files it is asked to compile, so an
-	// import file carries them only if it was a target when the image was first built.
-	markersOfTargetsOnly bool
+	// unusedDepsOfTargetsOnly: compare the unused-dependency marker of non-import files only. The
+	// compiler reports unused imports for the files it is asked to compile, so an import file carries
+	// the marker only if it was a target when the image was first built. (The syntax-unspecified marker
+	// is always compared: that warning is produced for every parsed file.)
+	unusedDepsOfTargetsOnly bool
 }
 
 // compareViews compares got with want under a reference resolver. Returns (what, message).
@@ -453,14 +454,15 @@ func compareViews(res *refResolver, want, got []fileView, o cmpOpts) (string, st
 		if !o.ignoreImportFlag && w.IsImport != g.IsImport {
 			return "import-flag", fmt.Sprintf("%s: is_import=%v, expected %v", w.Path, g.IsImport, w.IsImport)
 		}
-		if o.markersOfTargetsOnly && w.IsImport && g.IsImport {
+		// the missing-syntax warning is produced for every file the compiler parses, imports included
+		if w.NoSyntax != g.NoSyntax {
+			return "syntax-unspecified", fmt.Sprintf("%s: is_syntax_unspecified=%v, expected %v (is_import=%v)", w.Path, g.NoSyntax, w.NoSyntax, g.IsImport)
+		}
+		if o.unusedDepsOfTargetsOnly && w.IsImport && g.IsImport {
 			if !o.ignoreModule && w.Module != g.Module {
 				return "module-name", fmt.Sprintf("%s: module %q, expected %q", w.Path, g.Module, w.Module)
 			}
 			continue
-		}
-		if w.NoSyntax != g.NoSyntax {
-			return "syntax-unspecified", fmt.Sprintf("%s: is_syntax_unspecified=%v, expected %v", w.Path, g.NoSyntax, w.NoSyntax)
 		}
 		if fmt.Sprint(normIdx(w.UnusedDeps)) != fmt.Sprint(normIdx(g.UnusedDeps)) {
 			return "unused-dependency", fmt.Sprintf("%s: unused_dependency=%v, expected %v", w.Path, g.UnusedDeps, w.UnusedDeps)
